@@ -31,6 +31,16 @@ for pid in sorted(md.CLAIMED):
         else:
             c["text"] = c["text"] + "  Round 5: " + text + "."
         c["technique"] = c["technique"] + "; " + tech
+    add6 = getattr(md, "ADDENDA_R6", {}).get(pid)
+    if add6:
+        ref, text, tech = add6
+        c["design_ref"] = c["design_ref"] + ", " + ref
+        if "  Not decided:" in c["text"]:
+            head, tail = c["text"].split("  Not decided:", 1)
+            c["text"] = head + "  Round 6: " + text + ".  Not decided:" + tail
+        else:
+            c["text"] = c["text"] + "  Round 6: " + text + "."
+        c["technique"] = c["technique"] + "; " + tech
     checks.append({
         "property_id": pid,
         "quick_cmd": "./check %s --tier quick" % pid,
